@@ -418,7 +418,7 @@ def finish(pid, tag, cases, oracle_viols, rule, extra=None):
     cov.update(st)
     # evaluations = every execution of the implementation in this run; the exact-scalar cases (the ones also run through the model) are counted separately
     mult = {"f64_cases": 1, "long_f64_runs": 1, "fading_pairs": 2, "f64_vs_exact_runs": 2, "f32_runs": 2, "float_cases_bit_exact": 1, "f64_pow2_pairs": 2,
-            "f64_chain_groups": 3, "heap_measurements": 1, "f64_schedules": 1, "coq_spec_cases": 0, "float_long_cases_hashed": 1, "dense_f64_vs_exact_runs": 3, "float_spec_long_cases": 1, "long_prefix_pairs": 2, "every_n_cases": 1}
+            "f64_chain_groups": 3, "heap_measurements": 1, "f64_schedules": 1, "coq_spec_cases": 0, "float_long_cases_hashed": 1, "dense_f64_vs_exact_runs": 3, "float_spec_long_cases": 1, "long_prefix_pairs": 2, "every_n_cases": 1, "million_prefix_pairs": 2}
     cov["evaluations_exact_scalar_with_model"] = cov["evaluations"]
     cov["evaluations"] = cov["evaluations"] + sum(mult[k_] * int(cov.get(k_, 0)) for k_ in mult if isinstance(cov.get(k_, 0), int))
     return {"coverage": cov, "violations": viols}
@@ -838,6 +838,35 @@ def run_C02(rng, tier):
     viols = O.spec_check("C02", cases, "the definition over the last N values")
     dg, dv = dense_vs_exact(rng, tier, [v for v in C02_VIEWS if v != "Entropy"], "c02-long", spec=("C02", "the definition over the last N values"))
     viols += dv
+    # units at the two ends of the binary64 range: small integers times 2^-1044 (subnormal numbers) and times 2^1000.  For the views below every
+    # operation is exact or a single correctly rounded quotient at these scales, so the f64 output must equal the definition evaluated at binary64
+    # to 1e-9 RELATIVE to the unit (a guard written with is_normal(), MIN_POSITIVE or an absolute epsilon shows only here)
+    tcases = []
+    for name in ("Roc", "Hln", "Min", "Max", "Sma", "Cumulative"):
+        for n in (1, 2, 3, 5):
+            for e2 in (-1044, 1000):
+                xs = [F(rng.below(9) + 1) * F(2) ** e2 for _ in range(3 * n + 8)]
+                import struct
+                fx = [float(x) for x in xs]       # exact: small integers times a power of two; fed as raw bit patterns (a ratio with a 2^1044 denominator cannot be converted term by term)
+                tcases.append(Case((name, n, E), [("v", 0, "x%016x" % struct.unpack("<Q", struct.pack("<d", v))[0]) for v in fx],
+                                   {"view": name, "regime": "unit 2^%d" % e2, "model": False, "mode": "f64", "unit": e2, "fx": fx}))
+    run_impl(tcases, mode="f64", profile="release")
+    for c in tcases:
+        f = O.spec_for(c.desc)
+        exp = SP.at_float(f, c.meta["fx"])
+        unit = 2.0 ** c.meta["unit"]
+        for t, (e, b) in enumerate(zip(exp, c.obs)):
+            if e == "skip":
+                continue
+            g = None if b.kind == "N" else (O.f64_of_bits(b.val) if b.kind == "S" else b.kind)
+            sc = max(abs(e), unit) if isinstance(e, float) else unit
+            if c.desc[0] in ("Roc", "Hln"):
+                sc = max(abs(e), 1.0) if isinstance(e, float) else 1.0
+            ok = (e is None and g is None) or (isinstance(e, float) and isinstance(g, float) and abs(e - g) <= 1e-9 * sc)
+            if not ok:
+                viols.append(O.viol("c02-unit-" + c.desc[0].lower(), "%s on small integers times 2^%d: update %d reports %s (f64), the definition evaluated at binary64 gives %s"
+                                    % (d_sexpr(c.desc), c.meta["unit"], t + 1, g, e), [c], step=t + 1))
+                break
     return finish("C02", "C02", cases, viols, "stand-alone windowed statistic, N in 1..12 weighted to 1,2 (and 20..40, 64, 97, 101, 128); batch definition over exactly the last N values evaluated with exact rationals; non-trivial = at least 3 distinct observations; f64 against the exact scalar at every step of long streams and with windows beyond 2^8 (2^16 in the thorough tier)",
                   {"dense_f64_vs_exact_runs": len(dg), "dense_steps": sum(len(g[1].ops) for g in dg)})
 
@@ -897,11 +926,64 @@ def run_C03(rng, tier):
             c1 = Case(d, [("q", 0, x) for x in p1] + [("u", 0, x) for x in s_], dict(meta))
             c2 = Case(d, [("q", 0, x) for x in p2] + [("u", 0, x) for x in s_], dict(meta))
             lpairs.append((c1, c2, K, sl, None))
+    # prefixes of MILLIONS of values (f64; the walk is generated inside the executor): a view that has seen 2^24 values and a fresh one must
+    # agree on a common suffix -- a rebuild / re-base / counter wrap every 2^22 or 2^24 updates or evictions leaks an old value only there
+    mpairs = []
+    for name in names:
+        if name not in LARGE_OK or name == "Pfe":
+            continue
+        d = mk_view(rng, name, n=rng.choice([2, 3, 5, 8]))
+        n = d[1]
+        K = 2 * n if C03_K[name] == "2n" else n + C03_K[name]
+        Lm = (2 ** 24 if name in O1_VIEWS or name in ("Min", "Max", "Hln", "Rsi", "MyRsi", "Entropy") else 2 ** 22) + 3000 + rng.below(2000)
+        if tier != "quick":
+            Lm *= 2
+        s_ = [F(c, 10) for c in lcg_walk(K + 12, rng.below(2 ** 40) + 1)]
+        meta = {"view": name, "regime": "million-prefix", "model": False, "mode": "f64"}
+        c1 = Case(d, [("W", 0, rng.below(2 ** 40) + 1, Lm)] + [("v", 0, x) for x in s_], dict(meta))
+        c2 = Case(d, [("v", 0, x) for x in s_], dict(meta))
+        mpairs.append((c1, c2, K, Lm))
+    # the same with a window beyond 2^16 and two prefix lengths 2^16 apart (a ring buffer of capacity 2^17 is wrapped at one of them, contiguous at the other)
+    for name in names:
+        if not (name in O1_VIEWS or name in ("Min", "Max", "Hln", "Entropy")) or name not in LARGE_OK:
+            continue
+        n = 65537 + rng.below(9000)
+        d = (name, n, E)
+        K = n + C03_K[name]
+        s_ = [F(c, 10) for c in lcg_walk(K + 12, rng.below(2 ** 40) + 1)]
+        meta = {"view": name, "regime": "million-prefix/huge-window", "model": False, "mode": "f64"}
+        c2 = Case(d, [("v", 0, x) for x in s_], dict(meta))
+        Lm = 2 ** 17 + rng.below(2 ** 16)
+        sd = rng.below(2 ** 40) + 1
+        for extra in (0, 2 ** 16):
+            mpairs.append((Case(d, [("W", 0, sd, Lm + extra)] + [("v", 0, x) for x in s_], dict(meta)), c2, K, Lm + extra))
     run_impl(cases)
     run_impl([c for pr in lpairs for c in pr[:2]], profile="release")
+    uniq = []
+    for pr in mpairs:
+        for c in pr[:2]:
+            if not any(c is u for u in uniq):
+                uniq.append(c)
+    run_impl(uniq, mode="f64", profile="release")
     viols = O.c03(pairs) + O.c03(lpairs)
+    for (c1, c2, K, Lm) in mpairs:
+        o1, o2 = [b for b in c1.obs[1:]], list(c2.obs)
+        name = c1.desc[0]
+        tol = 0.0 if name in ("Min", "Max", "Hln", "Entropy", "Cog", "Cti", "Net", "Rsi", "MyRsi", "Roc") else (1e-5 if name in ("Welford", "WelfordVar", "WelfordMean", "Vst", "Vsct") else 1e-9)
+        for i in range(K, len(o2)):
+            a, b = o1[i], o2[i]
+            if a.kind == "S" and b.kind == "S":
+                x, y = O.f64_of_bits(a.val), O.f64_of_bits(b.val)
+                ok = (a.val == b.val) or (math.isfinite(x) and math.isfinite(y) and abs(x - y) <= tol * max(1.0, abs(x), abs(y), 400.0 if tol else 1.0))
+            else:
+                ok = a.kind == b.kind
+            if not ok:
+                viols.append(O.viol("c03-memory-" + name.lower(), "%s: after %d earlier updates the output on a common suffix is %s, a fresh instance fed only the suffix reports %s (position %d of the suffix, K=%d) [f64]"
+                                    % (d_sexpr(c1.desc), Lm, O.f64_of_bits(a.val) if a.kind == "S" else a.kind, O.f64_of_bits(b.val) if b.kind == "S" else b.kind, i + 1, K), [c1, c2] if len(c1.ops) < 2000 else [], K=K,
+                                    stream={"prefix": "W-walk (harness, tenth units)", "seed": c1.ops[0][2], "prefix_len": Lm, "suffix": "props.lcg_walk tenth units"}))
+                break
     return finish("C03", "C03", cases, viols, "pairs of histories with arbitrary (empty, short, long, huge-valued) different prefixes and a common suffix of length K..K+4; outputs on the suffix from position K on must be equal (exact rationals); plus, per view, a pair whose prefixes have > 2^12 (thorough: 2^16) resp. < 3 values",
-                  {"long_prefix_pairs": len(lpairs)})
+                  {"long_prefix_pairs": len(lpairs), "million_prefix_pairs": len(mpairs)})
 
 # ---------------------------------------------------------------------------------- C04
 def run_C04(rng, tier):
